@@ -50,7 +50,7 @@ FirePoint ==
 
 GFire ==
   /\ FirePoint # "no"
-  /\ (Cancel \/ DeadlineFires)
+  /\ (Cancel \/ DeadlineFires \/ ParentCancel)
   /\ timing' = FirePoint
   /\ jfire' = CASE FirePoint = "between_steps" -> s - 1
                 [] FirePoint \in {"during_stall", "in_step"} -> s
